@@ -79,3 +79,46 @@ fn rt_structural() {
     assert!(rt_single(&v, &nn, Some("String")), "C17: NonNullable removes null");
     std::mem::forget(r); std::mem::forget(v);
 }
+
+// ---------------- C17: type list emission (single vs array, null kept) through the public entry extract_props_type ----------------
+fn setup_with_props_type(members: Vec<TsTypeElement>) -> ExprOrSpread {
+    let ann = TsTypeAnn { span: sp(1), type_ann: Box::new(TsType::TsTypeLit(TsTypeLit { span: sp(1), members })) };
+    let param = Pat::Ident(BindingIdent { id: ident("props", local_ctxt()), type_ann: Some(Box::new(ann)) });
+    ExprOrSpread { spread: None, expr: Box::new(Expr::Arrow(ArrowExpr { span: sp(1), ctxt: SyntaxContext::empty(), params: vec![param], body: Box::new(BlockStmtOrExpr::BlockStmt(BlockStmt::default())), is_async: false, is_generator: false, type_params: None, return_type: None })) }
+}
+fn prop_sig(name: &str, ty: TsType, optional: bool) -> TsTypeElement {
+    TsTypeElement::TsPropertySignature(TsPropertySignature { span: sp(1), readonly: false, key: Box::new(Expr::Ident(ident(name, SyntaxContext::empty()))), computed: false, optional, type_ann: Some(Box::new(TsTypeAnn { span: sp(1), type_ann: Box::new(ty) })) })
+}
+#[kani::proof] #[kani::unwind(8)] #[kani::stub(std::ptr::drop_in_place, no_drop)] #[kani::stub(core::ptr::drop_glue, no_glue)] #[kani::stub(alloc::fmt::format, fmt_marker)]
+fn props_type_emission_nullable_union() {
+    use TsKeywordTypeKind::*;
+    let mut v = visitor(any_options());
+    let u = TsType::TsUnionOrIntersectionType(TsUnionOrIntersectionType::TsUnionType(TsUnionType { span: sp(1), types: vec![Box::new(kw(TsStringKeyword)), Box::new(kw(TsNullKeyword))] }));
+    let setup = setup_with_props_type(vec![prop_sig("a", u, false)]);
+    let r = v.extract_props_type(&setup);
+    let ok = match &r { Some(Expr::Object(o)) if o.props.len() == 1 && prop_key_str(&o.props[0]) == Some("a") => match prop_value(&o.props[0]) {
+        Some(Expr::Object(d)) => {
+            let ty_ok = matches!(find_prop(&d.props, "type"), Some(Expr::Array(a)) if a.elems.len() == 2
+                && matches!(&a.elems[0], Some(e) if matches!(&*e.expr, Expr::Ident(i) if &*i.sym == "String"))
+                && matches!(&a.elems[1], Some(e) if matches!(&*e.expr, Expr::Lit(Lit::Null(..)))));
+            let req_ok = matches!(find_prop(&d.props, "required"), Some(Expr::Lit(Lit::Bool(Bool { value: true, .. }))));
+            ty_ok && req_ok
+        }
+        _ => false }, _ => false };
+    assert!(ok, "C17: `string | null` emits type [String, null] (the null value stays in a multi-type list) and required: true");
+    std::mem::forget(r); std::mem::forget(setup); std::mem::forget(v);
+}
+#[kani::proof] #[kani::unwind(8)] #[kani::stub(std::ptr::drop_in_place, no_drop)] #[kani::stub(core::ptr::drop_glue, no_glue)]
+fn rt_indexed_access() {
+    use TsKeywordTypeKind::*;
+    let v = visitor(any_options());
+    let arr = || Box::new(TsType::TsArrayType(TsArrayType { span: sp(1), elem_type: Box::new(kw(TsStringKeyword)) }));
+    let by_lit = TsType::TsIndexedAccessType(TsIndexedAccessType { span: sp(1), readonly: false, obj_type: arr(), index_type: Box::new(lit_ty(TsLit::Number(Number { span: sp(1), value: 0.0, raw: None }))) });
+    let by_kw = TsType::TsIndexedAccessType(TsIndexedAccessType { span: sp(1), readonly: false, obj_type: arr(), index_type: Box::new(kw(TsNumberKeyword)) });
+    assert!(rt_single(&v, &by_lit, Some("String")), "C17: `string[][0]` (array indexed by a number literal) -> String");
+    assert!(rt_single(&v, &by_kw, Some("String")), "C17: `string[][number]` -> String");
+    let tup = TsType::TsTupleType(TsTupleType { span: sp(1), elem_types: vec![TsTupleElement { span: sp(1), label: None, ty: Box::new(kw(TsNumberKeyword)) }, TsTupleElement { span: sp(1), label: None, ty: Box::new(kw(TsBooleanKeyword)) }] });
+    let t1 = TsType::TsIndexedAccessType(TsIndexedAccessType { span: sp(1), readonly: false, obj_type: Box::new(tup), index_type: Box::new(lit_ty(TsLit::Number(Number { span: sp(1), value: 1.0, raw: None }))) });
+    assert!(rt_single(&v, &t1, Some("Boolean")), "C17: tuple indexing by a literal picks that element");
+    std::mem::forget(v);
+}
